@@ -29,6 +29,10 @@ EXTENDS Integers, Sequences, FiniteSets
 \*         | "dir" (patch_directory)
 \* phash, purl, pcache, pfiles, parch : the same for the overlay archive; pdir: "absent" | "present"
 \* diff  : "none" | "good" (applies) | "bad" (does not apply) | "missing" (file not in packagefiles)
+\* kind  : "file" ([wrap-file], everything above) | "git" | "hg" | "svn" ([wrap-git] / [wrap-hg] / [wrap-svn]:
+\*         url + revision; the sources are fetched by running the git / hg / svn client)
+\* vcs   : "ok" | "fail": does the client manage to fetch (VCS kinds only)
+\* rev   : "head" (revision = HEAD / tip: whatever the clone gives) | "pinned" (a named revision)
 \* cmd   : "download" (meson subprojects download) | "setup" (meson setup, subproject() required)
 \*         | "setup_nodl" (meson setup --wrap-mode=nodownload)
 Locs == {"absent", "good", "corrupt"}
@@ -38,7 +42,9 @@ Cmds == {"download", "setup", "setup_nodl"}
 Scenario(mode, hash, url, fb, cache, files, arch, patch, phash, purl, pcache, pfiles, parch, pdir, diff, cmd) ==
     [mode |-> mode, hash |-> hash, url |-> url, fb |-> fb, cache |-> cache, files |-> files, arch |-> arch,
      patch |-> patch, phash |-> phash, purl |-> purl, pcache |-> pcache, pfiles |-> pfiles, parch |-> parch,
-     pdir |-> pdir, diff |-> diff, cmd |-> cmd]
+     pdir |-> pdir, diff |-> diff, cmd |-> cmd, kind |-> "file", vcs |-> "ok", rev |-> "head"]
+Vcs(s, kind, vcs, rev) == [s EXCEPT !.kind = kind, !.vcs = vcs, !.rev = rev]
+Kinds == {"file", "git", "hg", "svn"}
 
 \* ---- observable file system ------------------------------------------------
 \* dir: set of markers of subprojects/<directory> ({} = the directory does not exist)
@@ -102,7 +108,19 @@ PatchStage(sc, fs) ==
               ELSE IF sc.parch = "ok" THEN DiffStage(sc, [a.fs EXCEPT !.dir = @ \cup {"patch"}])
               ELSE Failed(a.fs, "patch")
 
+\* the client invocations a fetch through a VCS client consists of: git/hg clone <url> <directory> and, for a
+\* named revision, a checkout of it; svn checkout -r <revision> <url> <directory>
+ClientCalls(sc) == IF sc.kind = "svn" THEN <<"checkout">>
+                   ELSE IF sc.rev = "head" \/ sc.vcs = "fail" THEN <<"clone">>
+                   ELSE <<"clone", "checkout">>
+
 Fresh(sc, fs) ==
+    IF sc.kind # "file"
+    \* "--wrap-mode=nodownload: Meson will not use the network to download any subprojects ... Only preexisting
+    \*  sources will be used" - whatever the kind of wrap
+    THEN IF NoDownload(sc) \/ sc.vcs = "fail" THEN Failed(fs, "fetch")
+         ELSE PatchStage(sc, [fs EXCEPT !.dir = {"build", "src"}])
+    ELSE
     LET a == Acquire(sc, "src", fs)
     IN IF ~a.ok THEN Failed(a.fs, "fetch")
        ELSE IF a.c = "corrupt" THEN PatchStage(sc, [a.fs EXCEPT !.dir = {"build", "evil"}])
@@ -110,11 +128,15 @@ Fresh(sc, fs) ==
        ELSE Failed(a.fs, "unpack")
 
 \* "it will download all missing subprojects, but will not update already fetched subprojects"
-RunOnce(sc, fs) ==
+RunOnce0(sc, fs) ==
     IF fs.dir # {}
     THEN IF sc.cmd = "download" \/ "build" \in fs.dir THEN Result(TRUE, fs, "present")
          ELSE Result(FALSE, fs, "present")
     ELSE Fresh(sc, fs)
+\* the VCS client runs only when sources are missing and downloading is allowed
+Calls(sc, fs) == IF fs.dir # {} \/ sc.kind = "file" \/ NoDownload(sc) THEN <<>> ELSE ClientCalls(sc)
+RunOnce(sc, fs) == LET r == RunOnce0(sc, fs)
+                   IN [ok |-> r.ok, fs |-> r.fs, stage |-> r.stage, calls |-> Calls(sc, fs)]
 
 \* ---- what must never be observed ------------------------------------------------
 \* a directory that a later run would take for the finished subproject although a stage is missing
